@@ -158,11 +158,6 @@ theorem writeSlots_spec (cfg : Cfg) (tr lv : Bucket Addr Leaves) (l : List (Addr
     exact ⟨hs.1, hs.2.1, hs.2.2⟩
 
 
-theorem deployed_not_system (d : Diff) (hwf : d.WF) (a : Addr) (h : a ∈ d.deployed.map (·.1)) : isSystem a = false := by
-  cases hs : isSystem a with
-  | false => rfl
-  | true => exact absurd h (hwf.noSys a hs).1
-
 /-- `Update` extends the invariant by the stored block -/
 theorem ninv_store (cfg : Cfg) (ch : List Diff) (s s' : NState) (d : Diff) (hinv : NInv cfg ch s) (hwf : d.WF)
     (hup : s.update cfg ch.length d = .ok s') : NInv cfg (d :: ch) s' := by
@@ -491,5 +486,79 @@ theorem ninv_revert (cfg : Cfg) (d : Diff) (rest : List Diff) (s s' : NState) (h
       have := decl_lt rest c n hn
       have hne : n ≠ rest.length := by omega
       simp [hn, hne]
+
+
+/-! ### Reads -/
+
+theorem ninv_deployedAt (cfg : Cfg) (ch : List Diff) (s : NState) (hinv : NInv cfg ch s) (a : Addr) (n : Nat)
+    (ha : isSystem a = false) : s.deployedAt cfg a n = ((absAt ch n).dep a).isSome := by
+  unfold NState.deployedAt
+  rw [hinv.contracts a ha, dep_at_iff ch hinv.depOnce a n]
+  rcases hd : (absOf ch).dep a with _ | h <;> simp [ha]
+
+theorem ninv_histValue (cfg : Cfg) (ch : List Diff) (s : NState) (hinv : NInv cfg ch s) (key : HKey) (n : Nat) :
+    newHistorical (lget s.hist key) n = keyVal (absAt ch n) key := by
+  rw [hinv.hist key]; exact histOf_value ch hinv.wf key n
+
+/-- historical reads of the new backend are the abstract state at the block -/
+theorem ninv_histRead (cfg : Cfg) (ch : List Diff) (s : NState) (hinv : NInv cfg ch s) (n : Nat) (q : Query)
+    (hq : q.ordinary) : NState.histRead cfg s n q = (absAt ch n).read q := by
+  cases q with
+  | classHash a =>
+    simp only [NState.histRead, AbsSt.read, ninv_deployedAt cfg ch s hinv a n hq, ninv_histValue cfg ch s hinv]
+    rfl
+  | nonce a =>
+    simp only [NState.histRead, AbsSt.read, ninv_deployedAt cfg ch s hinv a n hq, ninv_histValue cfg ch s hinv]
+    rfl
+  | storage a k =>
+    simp only [NState.histRead, AbsSt.read, ninv_deployedAt cfg ch s hinv a n hq, ninv_histValue cfg ch s hinv]
+    rfl
+  | cls c =>
+    simp only [NState.histRead, AbsSt.read, hinv.classes c, decl_at_iff ch c n]
+    by_cases hx : (absOf ch).decl c = none
+    · simp [hx]
+    · obtain ⟨m, hm⟩ := Option.ne_none_iff_exists'.mp hx
+      by_cases hle : m ≤ n
+      · have : ¬ n < m := by omega
+        simp [hm, hle, this]
+      · have : n < m := by omega
+        simp [hm, hle, this]
+
+/-- head reads of the new backend are the abstract state after the last block (storage: the slot
+value whether or not the contract exists — juno's `StateReader.ContractStorage` contract — and
+only in the variant whose trie deletes leaves properly) -/
+theorem ninv_headRead (cfg : Cfg) (ch : List Diff) (s : NState) (hinv : NInv cfg ch s) (q : Query) :
+    (∀ a, q = .classHash a → isSystem a = false → s.headRead q = (absOf ch).read q) ∧
+    (∀ a, q = .nonce a → isSystem a = false → s.headRead q = (absOf ch).read q) ∧
+    (∀ a k, q = .storage a k → cfg.leafFix = true → s.headRead q = .ok ((absOf ch).stor a k)) ∧
+    (∀ c, q = .cls c → s.headRead q = (absOf ch).read q) := by
+  refine ⟨?_, ?_, ?_, ?_⟩
+  · intro a e ha; subst e
+    simp only [NState.headRead, AbsSt.read, hinv.contracts a ha]
+    rcases (absOf ch).dep a with _ | h <;> simp
+  · intro a e ha; subst e
+    simp only [NState.headRead, AbsSt.read, hinv.contracts a ha]
+    rcases (absOf ch).dep a with _ | h <;> simp
+  · intro a k e hfix; subst e
+    simp only [NState.headRead, hinv.leaves hfix a, hinv.trie a k]
+  · intro c e; subst e
+    simp only [NState.headRead, AbsSt.read, hinv.classes c]
+
+/-- system contracts, any variant: a historical storage read never returns a wrong value -/
+theorem ninv_histRead_system (cfg : Cfg) (ch : List Diff) (s : NState) (hinv : NInv cfg ch s) (n : Nat)
+    (a : Addr) (k : Slot) :
+    (NState.histRead cfg s n (.storage a k) = .notfound ∨
+      NState.histRead cfg s n (.storage a k) = .ok ((absAt ch n).stor a k)) ∧
+    (cfg.sysProbeFix = true → isSystem a = true →
+      NState.histRead cfg s n (.storage a k) = .ok ((absAt ch n).stor a k)) := by
+  have hv : newHistorical (lget s.hist (.storage a k)) n = (absAt ch n).stor a k :=
+    ninv_histValue cfg ch s hinv (.storage a k) n
+  constructor
+  · simp only [NState.histRead, hv]
+    by_cases hd : s.deployedAt cfg a n = true
+    · right; simp [hd]
+    · left; simp [hd]
+  · intro hfix ha
+    simp only [NState.histRead, hv, NState.deployedAt, hfix, ha, Bool.and_self, Bool.true_or, if_true]
 
 end Juno.C03
